@@ -150,6 +150,11 @@ func (fx *FuncVC) binop(op token.Token, a, b Val, ta, tb, tr types.Type, pos tok
 			r = fx.uninterp("bitandnot", x, y)
 		}
 	case token.OR:
+		if c, ok := isIntLit(y); ok && isMask(c) {
+			// x | (2^k-1): the low k bits are set, the rest is kept (two's complement, any sign)
+			r = Add(Sub(x, app("mod", SInt, x, IntC(c+1))), IntC(c))
+			break
+		}
 		r = fx.uninterp("bitor", x, y)
 		if isUnsigned(tr) || true {
 			// x|y >= max(x,y) for non-negative operands; keep only type range
